@@ -48,7 +48,9 @@ def ddm_spec(xs: list, m: int, lw: float, ld: float):
         yield (drift, (not drift) and e > rw)
 
 
-def eddm_spec(xs: list, alpha: float, beta: float, level: float, mm: int):
+def eddm_spec(xs: list, alpha: float, beta: float, level: float, mm: int, gate_max: bool = True):
+    """`gate_max`: the running maximum is tracked only once `min_num_misclassified_instances` INSTANCES have been seen (the current code); False: from the first error on
+    (Baena-Garcia et al. as published) - the property does not say when the running maximum starts"""
     last = 0
     dists = []
     mx = None
@@ -61,7 +63,7 @@ def eddm_spec(xs: list, alpha: float, beta: float, level: float, mm: int):
             mu = sum(dists) / k
             sd = math.sqrt(max(0.0, sum((d - mu) ** 2 for d in dists) / k))
             thr = mu + level * sd
-            if t >= mm:
+            if t >= mm or not gate_max:
                 if mx is not None and near(thr, mx) and thr != mx:
                     yield None
                     return
@@ -141,6 +143,22 @@ def check_spec(out: Outcome, cls: str, p: dict, xs: list, runners: list, label: 
             break
         got = dets.flags(cls, r.det)
         flagged = flagged or any(got)
+        if got != want and cls == "EDDM" and "r" not in xs:
+            # is the whole trace the published rule with the running maximum started at the FIRST error (an admissible reading the model does not take)?
+            alt = list(eddm_spec(xs, fp["alpha"], fp["beta"], fp["level"], fp["min_num_misclassified_instances"], gate_max=False))
+            d2 = dets.make(cls, p)
+            ok_alt = True
+            for x2, w2 in zip(xs, alt):
+                d2.update(value=x2)
+                if w2 is None:
+                    break
+                if dets.flags(cls, d2) != w2:
+                    ok_alt = False
+                    break
+            if ok_alt:
+                out.mismatch(f"{label}{cls}: verdicts follow the published rule with the running maximum tracked from the first error; the model (and the current code) start "
+                             f"it after min_num_misclassified_instances instances (first difference at step {t})", {"class": cls, "params": p, "stream": xs[:t], "step": t})
+                break
         if got != want:
             out.violation(f"{label}{cls}: verdict at step {t} is (drift,warning)={got}, the published rule gives {want}",
                           {"class": cls, "params": p, "stream": xs[:t], "step": t, "got": got, "want": want})
